@@ -296,12 +296,12 @@ def where_text(tr, kind, form, ts, ps):
             items.append('%s : %s' % (t, p))
         elif kind == 'bin':
             l, r = form
-            lhs = ("for < ' a > & ' a %s" % t) if l else (("for < ' a > %s" % t) if r else t)
-            items.append('%s : %s < %s , Output = %s >' % (lhs, p, ("& ' a " + t) if r else t, t))
+            lhs = ("for < ' __h > & ' __h %s" % t) if l else (("for < ' __h > %s" % t) if r else t)
+            items.append('%s : %s < %s , Output = %s >' % (lhs, p, ("& ' __h " + t) if r else t, t))
         elif kind == 'assign':
-            items.append(("for < ' a > %s : %s < & ' a %s >" % (t, p, t)) if form else ('%s : %s < %s >' % (t, p, t)))
+            items.append(("for < ' __h > %s : %s < & ' __h %s >" % (t, p, t)) if form else ('%s : %s < %s >' % (t, p, t)))
         else:
-            items.append(("for < ' a > & ' a %s : %s < Output = %s >" % (t, p, t)) if form
+            items.append(("for < ' __h > & ' __h %s : %s < Output = %s >" % (t, p, t)) if form
                          else ('%s : %s < Output = %s >' % (t, p, t)))
     items += DECLARED + ps
     return 'where ' + ' '.join(i + ' ,' for i in items)
